@@ -328,7 +328,7 @@ def run(ctx):
             okc = all(genv is not None and genv in e.args for (_p, e) in calls)
             ctx.inst("R15.5", "env-unchanged:%s" % short_fn(g), okc, g.where(),
                      "%d call(s) to the reference-snapshot selector; env argument %s" % (len(calls), "is the caller's own Env" if okc else
-                        "is NOT the caller's unmodified Env: %s" % sym.show([a for a in calls[0][1].args if "Env" in sym.show(a, 1) or tag(a) == "rec"][0] if calls[0][1].args else 0, 5)))
+                        "is NOT the caller's unmodified Env: %s" % "; ".join(sym.show(a, 4)[:80] for a in calls[0][1].args)))
 
     # ---------------------------------------------------------------- R15.6
     # the band itself: [p*(D - r)/D, p*(D + r)/D] around the reference snapshot's price p = quote*D/base with r the
